@@ -648,12 +648,28 @@ theorem g_crypto_calls (al bl : List Cmd) :
 /-- non-vacuity: an entry of `b` without peer stops the merge -/
 example : (firstPeerErr exAl [exCR 1 "match address Y"]).isSome = true := by decide
 
+/-- **Fresh numbers of static entries are distinct.**  Among the calls of the second loop those whose entry
+of `b` has a static peer get numbers ≥ 1 that strictly increase from call to call (the counter moves past
+every number handed out), so two such entries never end up under one number. -/
+theorem g_crypto_fresh_static_ascending (al bl : List Cmd) :
+    ∃ fresh, matchCalls al bl = (matchLoop al bl).1 ++ fresh ∧
+      fresh.map (·.bSeq) = (matchLoop al bl).2.map some ∧
+      (∀ c ∈ fresh, StaticCall bl c → ∀ d ∈ c.bl, 1 ≤ d.seq) ∧
+      fresh.Pairwise (fun c1 c2 => StaticCall bl c1 → StaticCall bl c2 →
+        ∀ d1 ∈ c1.bl, ∀ d2 ∈ c2.bl, d1.seq < d2.seq) := by
+  obtain ⟨cs, h1, h2, _, h4, h5⟩ := freshFold_static al bl (matchLoop al bl).2 ((matchLoop al bl).1, 1, 65535)
+  exact ⟨cs, h1, h2, h4, h5⟩
+
+/-- non-vacuity: raw entries 2 and 3 of the example are static and without partner (numbers 1 and 2 above) -/
+example : StaticCall exBl { aIdx := [], bl := [], bSeq := some 2 } ∧ (matchLoop exAl exBl).2 = [2, 3] :=
+  ⟨⟨2, rfl, by decide⟩, by decide⟩
+
 def obligations : List Lean.Name := [
   ``g_no_object_merged_twice, ``g_second_reference_is_error, ``g_name_clash_is_error,
   ``g_simple_name_clash_is_error, ``g_unsupported_prefix_reported, ``g_unused_object_warned,
   ``mergeCmds_ext, ``g_final_table_holds_last_write, ``g_written_once_is_final, ``g_store_events_kept,
   ``g_store_event_asa_acl, ``g_store_event_ios_acl, ``g_store_event_generic, ``g_store_event_crypto, ``g_no_object_name_lost, ``g_generic_commands, ``g_generic_nothing_dropped, ``g_subcommands, ``g_crypto_common,
   ``g_dynmap_commands, ``g_crypto_entry_subcommands, ``g_old_crypto_subcommand_dropped_counterexample, ``g_asa_acl_law, ``g_ios_acl_law, ``g_placed_consequences,
-  ``g_crypto_device_entries_once, ``g_crypto_target_entries_once, ``g_crypto_match_by_peer, ``g_crypto_partner_found, ``g_crypto_fresh_numbers, ``g_crypto_calls]
+  ``g_crypto_device_entries_once, ``g_crypto_target_entries_once, ``g_crypto_match_by_peer, ``g_crypto_partner_found, ``g_crypto_fresh_numbers, ``g_crypto_calls, ``g_crypto_fresh_static_ascending]
 
 end NA.C18.G
